@@ -133,7 +133,24 @@ func c19Stmt(r *Rng, c int, ro bool, scoped bool) Stmt {
 				"select value, count(1) as c where " + scope + " group by value order by c desc limit 3",
 				"select key, int(value) as n where " + scope + " & n > 2",
 			})
-			return corruptText(r, base)
+			if !scoped {
+				return corruptText(r, base)
+			}
+			// shared read-write topology: the solo-run oracle needs every read confined
+			// to the client's own prefix, so the damage must leave "where <scope>" as
+			// the first conjunct (replacing `key` by a literal made a full scan whose
+			// length — and so the position of an injected fault — depended on other
+			// clients' writes: a false alarm of this harness, DESIGN.md §10.2)
+			for try := 0; try < 8; try++ {
+				t := corruptText(r, base)
+				if at := strings.Index(t, "where "+scope); at >= 0 {
+					rest := t[at+len("where "+scope):]
+					if rest == "" || strings.HasPrefix(rest, " & ") || strings.HasPrefix(rest, " group ") || strings.HasPrefix(rest, " order ") || strings.HasPrefix(rest, " limit") {
+						return t
+					}
+				}
+			}
+			return base + " limit"
 		},
 	}
 	writes := []func() string{
